@@ -1428,7 +1428,7 @@ class LogixDriver(CIPDriver):
             while offset is not None:
                 response: ReadTagFragmentedResponsePacket = super().send(request)
                 responses.append(response)
-                if response.service_status == INSUFFICIENT_PACKETS:
+                if response.service_status == INSUFFICIENT_PACKETS and response.value_bytes is not None:
                     offset += len(response.value_bytes)
                     request = ReadTagFragmentedRequestPacket.from_request(
                         self._sequence, request, offset
